@@ -15,7 +15,10 @@
   The print/parse round trip (`parse_print`, DESIGN.md §6 C08) is not in this file.
 -/
 import SeedModel.Parse
+import SeedProofs.ParseProps
 namespace Seed.C08
+
+-- audit: Seed.parse_print Seed.left_assoc Seed.tighter_first_lt Seed.tighter_first_gt Seed.range_loosest_right Seed.range_loosest_left Seed.range_left_assoc Seed.neg_literal_operand Seed.neg_literal_after_operand Seed.neg_literal_after_operator Seed.no_unary_minus Seed.parens_override_left Seed.parens_override_right Seed.binOps_tiers Seed.roundtrip_rel Seed.roundtrip_parseExpr
 open Seed
 
 /-- the documented operator table: token ↦ (operator, tier) -/
